@@ -7,7 +7,6 @@ import (
 	"bytes"
 	"encoding/hex"
 	"fmt"
-	"io"
 	"net"
 	"strings"
 	"time"
@@ -35,11 +34,19 @@ type Format struct {
 	Dec    func(b []byte) (Value, int, bool) // real decoder on a stream holding b: value, bytes left unread, ok
 	Coq    func(v Value) string
 	Zero   func() Value
-	Eq     func(a, b Value) bool              // value equality of C18 (scope decision 5)
-	Repr   func(v Value) (bool, string)       // representable per the property text (limits)
+	Eq     func(a, b Value) bool        // value equality of C18 (scope decision 5)
+	Repr   func(v Value) (bool, string) // representable per the property text (limits)
 	Desc   func(v Value) string
-	Trail  int                                // bytes a decoder legitimately leaves unread after one encoding (userauth: 2)
-	DecArg func(b []byte) string             // optional extra oracle argument for the Coq decoder checker
+	Trail  int                   // bytes a decoder legitimately leaves unread after one encoding (userauth: 2)
+	DecArg func(b []byte) string // optional extra oracle argument for the Coq decoder checker
+	// Prep, when set, does the harness-side setup for decoding b (e.g. building the tube that
+	// holds b) and returns the call of the real decoder alone, so that allocation measurements
+	// cover only the code under test.
+	Prep func(b []byte) func() (Value, int, bool)
+	// Must: boundary values every run includes whatever the seed; Corpus: fixed byte inputs
+	// (malformed encodings and the regression inputs of the fixed defects).
+	Must   func() []Value
+	Corpus func() [][]byte
 }
 
 func hx(b []byte) string {
@@ -317,8 +324,13 @@ var Cert = &Format{
 		_, err := c.ReadFrom(rd)
 		return c, rd.Len(), err == nil
 	},
-	Coq:  func(v Value) string { return coqCert(v.(*certs.Certificate)) },
-	Zero: func() Value { c := new(certs.Certificate); c.IssuedAt = time.Unix(0, 0); c.ExpiresAt = time.Unix(0, 0); return c },
+	Coq: func(v Value) string { return coqCert(v.(*certs.Certificate)) },
+	Zero: func() Value {
+		c := new(certs.Certificate)
+		c.IssuedAt = time.Unix(0, 0)
+		c.ExpiresAt = time.Unix(0, 0)
+		return c
+	},
 	Eq:   func(a, b Value) bool { return eqCert(a.(*certs.Certificate), b.(*certs.Certificate)) },
 	Repr: func(v Value) (bool, string) { return reprChunk(v.(*certs.Certificate).IDChunk) },
 	Desc: func(v Value) string { return descCert(v.(*certs.Certificate)) },
@@ -644,7 +656,7 @@ var Exec = &Format{
 	},
 	Enc: func(v Value) ([]byte, bool) {
 		e := v.(ExecMsg)
-		return codex.VerifExecInitBytes(e.Pty, e.Cmd, e.Term, e.HasSize, e.R, e.C, e.X, e.Y), true
+		return codex.VerifWireExecInitBytes(e.Pty, e.Cmd, e.Term, e.HasSize, e.R, e.C, e.X, e.Y), true
 	},
 	Dec: func(b []byte) (Value, int, bool) {
 		rd := bytes.NewReader(b)
@@ -676,6 +688,14 @@ var Exec = &Format{
 
 // ---------------------------------------------------------------- userauth
 
+func userAuthPrep(b []byte) func() (Value, int, bool) {
+	t := tubes.VerifWirePreloadedReliable(b)
+	return func() (Value, int, bool) {
+		s := userauth.GetInitMsg(t)
+		return []byte(s), tubes.VerifWireUnread(t), true
+	}
+}
+
 var UserAuth = &Format{
 	Name: "userauth", EncFn: "c18_enc_userauth", DecFn: "c18_dec_userauth", Trail: 2,
 	Gen: func(r *hv.Rand) Value {
@@ -686,15 +706,11 @@ var UserAuth = &Format{
 		return fill(r, n)
 	},
 	Enc: func(v Value) ([]byte, bool) {
-		b := userauth.VerifInitMsgBytes(string(v.([]byte)))
+		b := userauth.VerifWireInitMsgBytes(string(v.([]byte)))
 		return b, b != nil
 	},
-	Dec: func(b []byte) (Value, int, bool) {
-		t := tubes.VerifPreloadedReliable(b)
-		s := userauth.GetInitMsg(t)
-		left, _ := io.ReadAll(t)
-		return []byte(s), len(left), true
-	},
+	Dec:  func(b []byte) (Value, int, bool) { return userAuthPrep(b)() },
+	Prep: userAuthPrep,
 	Coq:  func(v Value) string { return CoqBytes(v.([]byte)) },
 	Zero: func() Value { return []byte{} },
 	Eq:   func(a, b Value) bool { return bytes.Equal(a.([]byte), b.([]byte)) },
@@ -763,12 +779,12 @@ var Pf = &Format{
 	},
 	Enc: func(v Value) ([]byte, bool) {
 		p := v.(PfReq)
-		b := portforwarding.VerifToBytes(p.addr, p.Fwd)
+		b := portforwarding.VerifWireToBytes(p.addr, p.Fwd)
 		return b, b != nil
 	},
 	Dec: func(b []byte) (Value, int, bool) {
 		rd := bytes.NewReader(b)
-		a, fwd, err := portforwarding.VerifReadPacket(rd)
+		a, fwd, err := portforwarding.VerifWireReadPacket(rd)
 		if err != nil {
 			return PfReq{}, rd.Len(), false
 		}
